@@ -118,11 +118,24 @@ def run_case(case, cid):
                 matrix = case["kind"].endswith("Matrix") or case["op"] == "q2m"
                 nm = pure.Namer(case["labels"], matrix)
                 model = cls(case["terms"])
-                if case["kind"] != "dict" and cid % 5 == 0 and case["op"] != "q2m":
-                    # a model object with history: a term over one more label came and went (its caches still mention the label)
+                if case["kind"] != "dict" and cid % 5 in (0, 1) and case["op"] != "q2m":
+                    # a model object with history: a term over one more label came (FIRST, so it holds the first integer) and
+                    # went (its caches still mention the label); sometimes the judged object is then a copy / a sum / a product
                     extra = 7 if case["kind"].endswith("Matrix") else "__gone"
+                    model = cls()
                     model[(extra,)] += 1
+                    for k, v in case["terms"].items():
+                        model[k] += v
                     model[(extra,)] -= 1
+                    if cid % 5 == 1:
+                        model = [lambda m: m.copy(), lambda m: m + 0, lambda m: 1 * m, lambda m: type(m)(m)][(cid // 5) % 4](model)
+                if case["kind"] != "dict" and case["op"] in ("enum", "convsol"):
+                    # conversions made BEFORE the enumeration is changed below must not be remembered
+                    for meth in ("to_enumerated", case.get("method", "to_enumerated")):
+                        try:
+                            getattr(model, meth)()
+                        except Exception:      # noqa
+                            pass
                 later = []
                 if case.get("set_mapping"):
                     # a user-chosen mapping, handed over in an insertion order that differs from the integer order
